@@ -138,6 +138,60 @@ class _NtMethod:
 _PLAIN_TYPES = (str, int, float, bool, bytes, list, tuple, dict, set, frozenset, range, slice, complex, type(None))
 
 
+_MUTATING_METHODS = {'append', 'extend', 'insert', 'pop', 'popitem', 'remove', 'clear', 'update', 'setdefault', 'add', 'discard', 'sort', 'reverse',
+                     'difference_update', 'intersection_update', 'symmetric_difference_update', '__setitem__', '__delitem__'}
+
+
+class _NoKey(Exception):
+    """an argument of a memoised function that the analysis cannot compare with others"""
+
+
+class _Identity:
+    """an object without __eq__: equal to itself only"""
+
+    def __init__(self, obj):
+        self.obj = obj
+
+    def __eq__(self, o):
+        return isinstance(o, _Identity) and o.obj is self.obj
+
+    def __hash__(self):
+        return id(self.obj)
+
+
+class _ObjKey:
+    """an object of the package as a dictionary key: compared and hashed by its own __eq__ / __hash__"""
+
+    def __init__(self, interp, obj):
+        self.interp, self.obj = interp, obj
+
+    def __hash__(self):
+        it = self.interp
+        m = it.find_method(self.obj.cls, '__hash__')
+        if m is None:
+            return 0  # all such objects in one bucket: __eq__ decides
+        h = it.call_function(m, [], {}, bound=self.obj)
+        if not isinstance(h, int):
+            raise _NoKey()
+        return h
+
+    def __eq__(self, o):
+        if not isinstance(o, _ObjKey):
+            return False
+        if o.obj is self.obj:
+            return True
+        it = self.interp
+        m = it.find_method(self.obj.cls, '__eq__')
+        if m is None:
+            return False
+        r = it.call_function(m, [o.obj], {}, bound=self.obj)
+        if isinstance(r, ExtRef) and r.path.endswith('NotImplemented'):
+            return False
+        if not isinstance(r, bool):
+            raise _NoKey()
+        return r
+
+
 def _plain(*vals) -> bool:
     """All operands are plain Python values: what Python does with them is what the package does."""
     return all(type(v) in _PLAIN_TYPES for v in vals)
@@ -236,6 +290,8 @@ class Interp:
             self.depth = 0
             self.call_stack = []
             self.steps = 0
+            if getattr(self, '_world_dirty', False):
+                self.reset_world()  # every path starts in the world the run started in, not in the one the previous path left
             try:
                 val = fn(self, *a, **kw)
                 out = Outcome('return', val, self.conditions, self.events)
@@ -294,6 +350,8 @@ class Interp:
         if self.depth >= self.MAX_DEPTH:
             raise AnalysisError(f'inlining depth exceeded at {fi.fq}')
         decs = fi.decorators()
+        if decs and not getattr(self, '_in_memo', None) == fi.fq and self.repo.memoised(fi):
+            return self.call_memoised(fi, args, kwargs, bound, closure)
         if bound is None and fi.cls is None and any(d.split('.')[-1] == 'singledispatch' for d in decs) and (args or kwargs):
             impl = self.single_dispatch(fi, args[0] if args else next(iter(kwargs.values())))
             if impl is not fi:
@@ -354,6 +412,101 @@ class Interp:
                 self._gen_stack.pop()
             self.depth -= 1
             self.call_stack.pop()
+
+    # ------------------------------------------------------------------
+    # the world: module-level state that outlives a call (memo tables, lru_cache stores, rebinding of globals)
+    def call_memoised(self, fi: FuncInfo, args, kwargs, bound, closure):
+        """functools.lru_cache / cache: one stored result per key; the key compares the way Python compares the arguments."""
+        def through():
+            prev = getattr(self, '_in_memo', None)
+            self._in_memo = fi.fq
+            try:
+                return self.call_function(fi, args, kwargs, bound=bound, closure=closure)
+            finally:
+                self._in_memo = prev
+        try:
+            key = (tuple(self.memo_key(a) for a in ([bound] if bound is not None else []) + list(args)),
+                   tuple((k, self.memo_key(v)) for k, v in kwargs.items()))
+            store = self.__dict__.setdefault('_memo', {}).setdefault(fi.fq, {})
+            hit = key in store
+        except _NoKey:
+            return through()  # an argument the analysis cannot compare: computed anew (what a miss does)
+        if hit:
+            self.memo_hits = getattr(self, 'memo_hits', 0) + 1
+            return store[key]
+        val = through()  # an exception is not stored
+        store[key] = val
+        self._world_dirty = True
+        return val
+
+    def memo_key(self, v):
+        """A Python-hashable stand-in for an argument of a memoised function: equal stand-ins iff Python would find the arguments
+        equal (strings, numbers, tuples, units, enum members; objects by their __eq__ / __hash__ or by identity)."""
+        if v is None or isinstance(v, str | int | float | bool | bytes | frozenset | EnumMember) or type(v).__name__ in ('ExactImage', 'Unit'):
+            return v
+        if isinstance(v, tuple):
+            return tuple(self.memo_key(x) for x in v)
+        if isinstance(v, FuncRef):
+            return ('function', v.fi.fq, id(v.bound) if v.bound is not None else None)
+        if isinstance(v, ClassRef):
+            return ('class', v.ci.module, v.ci.name)
+        if isinstance(v, ExtRef):
+            return ('ext', v.path)
+        if isinstance(v, list | dict | set):
+            raise RaiseSignal('TypeError', self.cur_node, self.where(self.cur_node), (f"unhashable type: '{type(v).__name__}'",))
+        if isinstance(v, SVar):
+            if v.kind == 'raw' and v.term is not None and not v.members.get('is_array', False) and v.members.get('dims') in (None, []):
+                return ('number', T.show(v.term), v.dtype)  # a bare number: the same symbolic value is the same key
+            raise _NoKey()  # (a scipp variable is unhashable: such a call fails on its first use, which the tests see)
+        if isinstance(v, SObj):
+            if self.find_method(v.cls, '__eq__') is not None or self.find_method(v.cls, '__hash__') is not None:
+                return _ObjKey(self, v)
+            if v.cls.is_dataclass() or self.is_namedtuple(v.cls):
+                return ('fields', v.cls.name, tuple(self.memo_key(self.getattr(v, n, self.cur_node)) for n, _ in v.cls.dataclass_fields()))
+            return _Identity(v)
+        raise _NoKey()
+
+    def track_world(self, val):
+        """Remember the mutable objects reachable from a module-level value: a later write to one of them is a write to the world."""
+        track = self.__dict__.setdefault('_gtrack', {})
+        stack = [val]
+        while stack:
+            v = stack.pop()
+            if isinstance(v, tuple):
+                stack.extend(v)
+                continue
+            if isinstance(v, FuncRef):
+                if v.closure:
+                    stack.append(v.closure)
+                continue
+            if isinstance(v, Lambda):
+                stack.append(v.env)
+                continue
+            if not isinstance(v, dict | list | set | SObj | SVar) or isinstance(v, GenResult) or id(v) in track:
+                continue
+            track[id(v)] = v  # (keeps the object alive: its id is not reused)
+            if isinstance(v, dict):
+                stack.extend(v.values())
+            elif isinstance(v, list | set):
+                stack.extend(v)
+            elif isinstance(v, SObj):
+                stack.extend(v.attrs.values())
+
+    def note_store(self, container, *stored):
+        """A write into `container`; if it belongs to the world, the world has changed (and what was stored belongs to it now)."""
+        track = self.__dict__.get('_gtrack')
+        if track and id(container) in track:
+            self._world_dirty = True
+            self.world_writes = getattr(self, 'world_writes', 0) + 1
+            for x in stored:
+                self.track_world(x)
+
+    def reset_world(self):
+        """Forget everything earlier calls left behind: module-level values are evaluated anew, memo stores are empty."""
+        self.__dict__.pop('_globals', None)
+        self.__dict__.pop('_gtrack', None)
+        self.__dict__.pop('_memo', None)
+        self._world_dirty = False
 
     # ------------------------------------------------------------------
     # statements
@@ -423,7 +576,13 @@ class Interp:
         if st.exc is not None:
             e = st.exc
             if isinstance(e, ast.Call):
-                if isinstance(e.func, ast.Name) and (e.func.id in mi.functions or isinstance(env.get(e.func.id), FuncRef)):
+                helper = isinstance(e.func, ast.Name) and (e.func.id in mi.functions or isinstance(env.get(e.func.id), FuncRef))
+                if not helper and isinstance(e.func, ast.Attribute | ast.Name):
+                    try:
+                        helper = isinstance(self.eval(e.func, env, mi), FuncRef | Lambda)  # raise self._error(...), raise mod.helper(...)
+                    except AnalysisError:
+                        helper = False
+                if helper:
                     # raise helper(...): the helper builds the exception object
                     v = self.eval(e, env, mi)
                     if isinstance(v, ExcValue):
@@ -457,6 +616,7 @@ class Interp:
                 key = self.eval(t.slice, env, mi)
                 if isinstance(obj, dict):
                     obj.pop(key, None)
+                    self.note_store(obj)
                 else:
                     self.mutate(obj, t, 'del item')
             else:
@@ -475,6 +635,8 @@ class Interp:
         if isinstance(t, ast.Name):
             if t.id in env.get('__global_names__', ()):
                 self.__dict__.setdefault('_globals', {})[(mi.name, t.id)] = val
+                self.track_world(val)
+                self._world_dirty = True
                 self.event('module-state-write', t, name=f'{mi.name}:{t.id}')
             else:
                 env[t.id] = val
@@ -508,6 +670,7 @@ class Interp:
                     self.call_function(setter, [val], {}, bound=obj)
                     return
                 obj.attrs[t.attr] = val
+                self.note_store(obj, val)
             elif isinstance(obj, SVar):
                 self.mutate(obj, t, f'attribute store .{t.attr}')
                 if hasattr(self.model, 'var_setattr'):
@@ -527,6 +690,7 @@ class Interp:
                     obj[key] = val
                 except (IndexError, KeyError, TypeError):
                     raise AnalysisError(f'subscript store at {self.where(t)}') from None
+                self.note_store(obj, val)
             elif isinstance(obj, SVar):
                 self.mutate(obj, t, 'item store')
                 if hasattr(self.model, 'var_store'):
@@ -567,7 +731,9 @@ class Interp:
             self.assign(st.target, res, env, mi) if not isinstance(st.target, ast.Name) else env.__setitem__(st.target.id, res)
             return
         if isinstance(target, list) and opname == 'add':
-            target.extend(self.iterate(val, st))
+            more = self.iterate(val, st)
+            target.extend(more)
+            self.note_store(target, *more)
             return
         if isinstance(target, Opaque) or isinstance(val, Opaque | SVar):
             res = self.binop(opname, pyop, target, val, st)
@@ -805,6 +971,7 @@ class Interp:
         """Record an in-place write to obj (and everything it may alias)."""
         if not isinstance(obj, SVar):
             return
+        self.note_store(obj)
         seen = set()
         stack = [obj]
         while stack:
@@ -873,6 +1040,7 @@ class Interp:
             if key not in cache:
                 cache[key] = Opaque('global under evaluation')
                 cache[key] = self.eval(mi.assigns[name], {}, mi)
+                self.track_world(cache[key])
             return cache[key]
         if name in _PY_BUILTINS:
             return ExtRef('builtins.' + name)
@@ -1183,10 +1351,15 @@ class Interp:
         if isinstance(fn, BoundModel):
             return self.model.call_method(self, fn.recv, fn.name, args, kwargs, node)
         if isinstance(fn, _PyBound):
-            if any(isinstance(a, Opaque) for a in args):
+            # a container stores an unknown value like any other (cells.append(⊤)); an unknown position or key is not modelled
+            storing = isinstance(fn.obj, list | dict | set) and fn.name in ('append', 'insert', 'add', 'setdefault')
+            key_unknown = fn.name in ('insert', 'setdefault') and args and isinstance(args[0], Opaque)
+            if any(isinstance(a, Opaque) for a in args) and not (storing and not key_unknown):
                 return Opaque(f'{fn.name}(⊤)')
             if isinstance(fn.obj, str | bytes) and any(isinstance(a, list | tuple) and any(isinstance(x, Opaque | SVar | SObj) for x in a) for a in args):
                 return Opaque(f'{fn.name}(sequence with ⊤)')  # e.g. ', '.join of formatted abstract values
+            if isinstance(fn.obj, list | dict | set) and fn.name in _MUTATING_METHODS:
+                self.note_store(fn.obj, *args, *kwargs.values())
             try:
                 return fn.fn(*args, **kwargs)
             except (RaiseSignal, ReturnSignal, AnalysisError, PassThrough):
